@@ -6,6 +6,7 @@ import (
 	"os"
 	"os/exec"
 	"path/filepath"
+	"sort"
 	"strings"
 	"sync"
 	"time"
@@ -58,15 +59,42 @@ func VerifyFunc(p *Program, fc *FuncContract) (g *Gen, err error) {
 	}
 	g.addOblig(&Oblig{Name: f.obName("cover", nil, 0) + "requires-satisfiable", Kind: "cover", Goal: "false", Cover: true})
 	f.Walk(args, entry, "true")
-	envPost := &Env{g: g, f: f, heap: f.exitHeap, old: entry, bind: map[string]Val{}, results: f.results, pkg: fn.Pkg.Pkg, reach: f.exitReach}
+	// one sub-goal per (ensures clause, return site); sub-goals of one return site are discharged together
 	k := 0
+	groups := make([]*retGroup, len(f.retReach))
+	for i := range groups {
+		groups[i] = &retGroup{}
+	}
 	for _, c := range fc.Clauses {
 		if c.Kind != "ensures" {
 			continue
 		}
-		goal := envPost.trBool(c.E)
-		g.addOblig(&Oblig{Name: f.obName("ensures", c, k), Kind: "ensures", Goal: implies(f.exitReach, goal), Pos: f.pos(fn.Pos()), Text: c.Text})
+		o := &Oblig{Name: f.obName("ensures", c, k), Kind: "ensures", Pos: f.pos(fn.Pos()), Text: c.Text}
+		var goals []string
+		for r := range f.retReach {
+			env := &Env{g: g, f: f, heap: f.retHeaps[r], old: entry, bind: map[string]Val{}, results: f.retVals[r], pkg: fn.Pkg.Pkg, reach: f.retReach[r]}
+			goal := implies(f.retReach[r], env.trBool(c.E))
+			goals = append(goals, goal)
+			sub := &Oblig{Name: fmt.Sprintf("%s@ret%d", o.Name, r), Kind: "ensures", Goal: goal, NAsserts: len(g.asserts), Text: c.Text, Pos: o.Pos}
+			for _, w := range fc.Witness {
+				wv := env.tr(w.E)
+				if wv.Untyped {
+					wv = env.concretize(wv, tInt)
+				}
+				sub.WitTerms = append(sub.WitTerms, [2]string{w.Label, wv.S})
+			}
+			o.Subs = append(o.Subs, sub)
+			groups[r].subs = append(groups[r].subs, sub)
+		}
+		o.Goal = and(goals...)
+		if len(f.retReach) == 0 {
+			o.Goal = "true"
+		}
+		g.addOblig(o)
 		k++
+	}
+	if k > 0 {
+		g.retGroups = groups
 	}
 	if f.exitReach != "false" {
 		g.addOblig(&Oblig{Name: f.obName("cover", nil, 0) + "exit-reachable", Kind: "cover", Goal: not(f.exitReach), Cover: true})
@@ -75,7 +103,12 @@ func VerifyFunc(p *Program, fc *FuncContract) (g *Gen, err error) {
 }
 
 // SMTFor renders the query for one obligation.
-func (g *Gen) SMTFor(o *Oblig) string {
+func (g *Gen) SMTFor(o *Oblig) string { return g.SMTForOpts(o, false) }
+
+// SMTForOpts: with dropQuant the quantified global axioms (definitions of recursive/quantified spec
+// functions) are omitted, which over-approximates; used only to look for a candidate counterexample
+// that is then replayed on the real code.
+func (g *Gen) SMTForOpts(o *Oblig, dropQuant bool) string {
 	var b strings.Builder
 	b.WriteString("; obligation " + o.Name + "\n")
 	if o.Pos != "" {
@@ -86,10 +119,24 @@ func (g *Gen) SMTFor(o *Oblig) string {
 	}
 	b.WriteString(prelude(g.BV, g.usesStr(o)))
 	for _, d := range g.decls {
+		if dropQuant && strings.HasPrefix(d, "(assert (forall") {
+			continue
+		}
 		b.WriteString(d)
 		b.WriteString("\n")
 	}
-	for i := 0; i < o.NAsserts && i < len(g.asserts); i++ {
+	var idx []int
+	if o.Cover || g.noSlice {
+		for i := 0; i < o.NAsserts && i < len(g.asserts); i++ {
+			idx = append(idx, i)
+		}
+	} else {
+		idx = g.sliceFor(o.Goal, o.NAsserts)
+	}
+	for _, i := range idx {
+		if dropQuant && strings.HasPrefix(g.asserts[i], "(forall") {
+			continue
+		}
 		b.WriteString("(assert ")
 		b.WriteString(g.asserts[i])
 		b.WriteString(")\n")
@@ -162,7 +209,7 @@ func Discharge(g *Gen, o *Oblig, dir string, timeoutS int) {
 	}
 	r := runSolver(context.Background(), solvers[0], file, quick, false)
 	var errs []string
-	if !definitive(r) {
+	if !definitive(r) && !o.Cover {
 		if r.status == "error" {
 			errs = append(errs, r.solver+": "+r.out)
 		}
@@ -206,22 +253,156 @@ func Discharge(g *Gen, o *Oblig, dir string, timeoutS int) {
 			o.Model = strings.Join(errs, "\n")
 		}
 	}
+	if o.Status != "unsat" && !o.Cover && len(o.WitTerms) > 0 {
+		g.findWitness(o, dir, timeoutS)
+	}
 }
 
-func DischargeAll(g *Gen, dir string, timeoutS int, par int) {
-	var wg sync.WaitGroup
-	sem := make(chan struct{}, par)
+// findWitness looks for concrete witness values for a failed obligation (dropping quantified axioms if
+// the exact query has no model) and replays them on the real code through the contract's template.
+func (g *Gen) findWitness(o *Oblig, dir string, timeoutS int) {
+	var terms []string
+	for _, w := range o.WitTerms {
+		terms = append(terms, w[1])
+	}
+	gv := "(get-value (" + strings.Join(terms, " ") + "))\n"
+	try := func(dropQuant bool) map[string]string {
+		file := filepath.Join(dir, sanitize(o.Name)+fmt.Sprintf(".wit%v.smt2", dropQuant))
+		os.WriteFile(file, []byte(g.SMTForOpts(o, dropQuant)+gv), 0o644)
+		for _, sc := range solvers[:2] {
+			r := runSolver(context.Background(), sc, file, timeoutS, true)
+			if r.status == "sat" {
+				vals := parseGetValue(r.out, len(terms))
+				if len(vals) == len(terms) {
+					m := map[string]string{}
+					for i, w := range o.WitTerms {
+						m[w[0]] = vals[i]
+					}
+					return m
+				}
+			}
+		}
+		return nil
+	}
+	var vals map[string]string
+	if o.Status == "sat" {
+		vals = try(false)
+	}
+	if vals == nil {
+		vals = try(true)
+	}
+	if vals == nil {
+		return
+	}
+	var parts []string
+	for _, w := range o.WitTerms {
+		parts = append(parts, w[0]+" = "+goLiteral(vals[w[0]]))
+	}
+	o.Witness = strings.Join(parts, "; ")
+	if g.FC != nil && g.FC.Opts["replay"] != "" {
+		pkgDir := strings.TrimPrefix(strings.TrimPrefix(g.FC.Pkg, modPath), "/")
+		out, ok := replayTemplate(g.P.Repo, g.FC.Opts["replay"], pkgDir, vals)
+		o.ReplayOut = out
+		o.WitnessConfirmed = ok
+	}
+}
+
+type retGroup struct{ subs []*Oblig }
+
+// Tasks returns the solver tasks of this generator: one per plain obligation, one per return site
+// for the ensures clauses (all clauses at that site in one query, refined per clause if it fails).
+func (g *Gen) Tasks(dir string, timeoutS int) []func() {
+	var ts []func()
 	for _, o := range g.Obligs {
 		o := o
+		if len(o.Subs) > 0 {
+			continue
+		}
+		if o.Pre != "" {
+			o.Status, o.Solver = o.Pre, "dataflow"
+			continue
+		}
+		ts = append(ts, func() { Discharge(g, o, dir, timeoutS) })
+	}
+	for i, grp := range g.retGroups {
+		i, grp := i, grp
+		if len(grp.subs) == 0 {
+			continue
+		}
+		ts = append(ts, func() {
+			if len(grp.subs) == 1 {
+				Discharge(g, grp.subs[0], dir, timeoutS)
+				return
+			}
+			var goals []string
+			for _, s := range grp.subs {
+				goals = append(goals, s.Goal)
+			}
+			pkg, name := ContractName(g.Fn)
+			conj := &Oblig{Name: fmt.Sprintf("%s.%s#ensures-all@ret%d", pkg[strings.LastIndex(pkg, "/")+1:], name, i), Kind: "ensures", Goal: and(goals...), NAsserts: grp.subs[0].NAsserts}
+			Discharge(g, conj, dir, timeoutS)
+			if conj.Status == "unsat" {
+				for _, s := range grp.subs {
+					s.Status, s.Solver, s.Ms = "unsat", conj.Solver, conj.Ms/len(grp.subs)
+				}
+				return
+			}
+			for _, s := range grp.subs {
+				Discharge(g, s, dir, timeoutS)
+			}
+		})
+	}
+	return ts
+}
+
+// Finalize aggregates sub-goal results into their clause obligations.
+func (g *Gen) Finalize() {
+	for _, o := range g.Obligs {
+		if len(o.Subs) == 0 {
+			if o.Goal == "true" && o.Status == "" {
+				o.Status, o.Solver = "unsat", "trivial"
+			}
+			continue
+		}
+		o.Status, o.Ms = "unsat", 0
+		solv := map[string]bool{}
+		for _, s := range o.Subs {
+			o.Ms += s.Ms
+			solv[s.Solver] = true
+			if s.Status != "unsat" && o.Status == "unsat" {
+				o.Status, o.Model, o.File = s.Status, s.Model, s.File
+				o.FailedSub = s.Name
+				o.Witness, o.WitnessConfirmed, o.ReplayOut = s.Witness, s.WitnessConfirmed, s.ReplayOut
+			}
+		}
+		var names []string
+		for k := range solv {
+			names = append(names, k)
+		}
+		sort.Strings(names)
+		o.Solver = strings.Join(names, "+")
+	}
+}
+
+func RunTasks(ts []func(), par int) {
+	var wg sync.WaitGroup
+	sem := make(chan struct{}, par)
+	for _, t := range ts {
+		t := t
 		wg.Add(1)
 		sem <- struct{}{}
 		go func() {
 			defer wg.Done()
 			defer func() { <-sem }()
-			Discharge(g, o, dir, timeoutS)
+			t()
 		}()
 	}
 	wg.Wait()
+}
+
+func DischargeAll(g *Gen, dir string, timeoutS int, par int) {
+	RunTasks(g.Tasks(dir, timeoutS), par)
+	g.Finalize()
 }
 
 // ok reports whether the obligation is in its expected state.
